@@ -49,7 +49,7 @@ Section Simple3.
   Theorem simple_add_val self v right : wf_hdr F all_ok self ->
     exists h, add_val F self v right = Ret h /\ wf_hdr F all_ok h /\
               elements h = if right then contrib F v ++ elements self else elements self ++ contrib F v.
-  Proof. intros H. apply (add_val_spec F all_ok Hjoin Hempty Hfalsy); [exact H|exact I]. Qed.
+  Proof. intros H. apply (add_val_spec F all_ok Hjoin Hempty Hfalsy); [exact H|intros; exact I]. Qed.
 
   Theorem simple_add_hdr self other : wf_hdr F all_ok self -> wf_hdr F all_ok other ->
     exists h, add_hdr F self other = Ret h /\ wf_hdr F all_ok h /\ elements h = elements self ++ elements other.
